@@ -298,6 +298,12 @@ func (e *env) unsub(n int) {
 }
 
 func (e *env) report(n, t, payload int) {
+	if e.pending[t] > 0 {
+		// one sender already waits for room in this task's channel.  A second one would queue up behind it in the
+		// order the two goroutines reach the channel, which the harness cannot fix under load: not generated (the
+		// order among waiting senders is the Go runtime's, see the trusted base)
+		return
+	}
 	ch, open := e.chans[t]
 	c := e.colls[n]
 	call := func() error { return e.ls.ReportSignature(e.ctx, c.id, mkReport(t, payload)) }
